@@ -13,7 +13,9 @@
 (* panics at its first use.                                                  *)
 EXTENDS Integers, Sequences, FiniteSets, TLC
 CONSTANTS Keys,           \* <<shard index, name>>
-          Versions, NShards, Validate, MaxSteps
+          Versions, NShards, Validate, MaxSteps,
+          Truncates       \* FALSE: the file is overwritten in place without being truncated first (a deviation
+                          \* TLC must refute: a shorter document leaves the old tail behind it)
 
 ShardOf(k) == k[1]
 (* a shard in a document: null, or an object whose map is null or a set of entries *)
@@ -21,9 +23,10 @@ Shard(m) == [isnull |-> FALSE, mapnull |-> FALSE, map |-> m]
 NullShard == [isnull |-> TRUE, mapnull |-> FALSE, map |-> {}]
 NullMap == [isnull |-> FALSE, mapnull |-> TRUE, map |-> {}]
 Live(sh) == ~sh.isnull /\ ~sh.mapnull
-Absent == [t |-> "absent"]
-Garbage == [t |-> "garbage"]
-DocOf(c) == [t |-> "doc", shardno |-> NShards,
+(* every file value has a size n (in entries' worth of octets): corruption keeps it, truncation zeroes it *)
+Absent == [t |-> "absent", n |-> 0]
+Garbage(n) == [t |-> "garbage", n |-> n]
+DocOf(c) == [t |-> "doc", n |-> Cardinality(c), shardno |-> NShards,
              shards |-> [s \in 1..NShards |-> Shard({e \in c : ShardOf(e[1]) = s})]]
 
 (* the loader: every file value gives a cache; st = "ok" usable, "broken" = panics at first use *)
@@ -67,12 +70,18 @@ Announce(k, v) == /\ Tick /\ mem.st = "ok" /\ wpc = "idle"
                   /\ UNCHANGED <<file, saved, pending, wpc>>
 DumpMarshal == /\ Tick /\ mem.st = "ok" /\ wpc = "idle"
                /\ pending' = mem.c /\ wpc' = "marshalled" /\ UNCHANGED <<mem, file, saved>>
-DumpTruncate == /\ Tick /\ wpc = "marshalled" /\ file' = Garbage /\ wpc' = "truncated" /\ UNCHANGED <<mem, saved, pending>>
-DumpPartial == /\ Tick /\ wpc \in {"truncated", "partial"} /\ file' = Garbage /\ wpc' = "partial" /\ UNCHANGED <<mem, saved, pending>>
-DumpComplete == /\ Tick /\ wpc \in {"truncated", "partial"} /\ file' = DocOf(pending) /\ saved' = pending /\ wpc' = "idle" /\ UNCHANGED <<mem, pending>>
+DumpTruncate == /\ Tick /\ wpc = "marshalled" /\ wpc' = "truncated"
+                /\ file' = IF Truncates THEN Garbage(0) ELSE file
+                /\ UNCHANGED <<mem, saved, pending>>
+DumpPartial == /\ Tick /\ wpc \in {"truncated", "partial"} /\ file' = Garbage(file.n) /\ wpc' = "partial" /\ UNCHANGED <<mem, saved, pending>>
+(* the size of a document grows with its entries *)
+Longer(f, c) == f.n > Cardinality(c)
+DumpComplete == /\ Tick /\ wpc \in {"truncated", "partial"}
+                /\ file' = IF ~Truncates /\ Longer(file, pending) THEN Garbage(file.n) ELSE DocOf(pending)
+                /\ saved' = pending /\ wpc' = "idle" /\ UNCHANGED <<mem, pending>>
 (* the process dies at any moment and is started again: the cache is whatever the file loads as *)
 CrashRestart == /\ Tick /\ mem' = Load(file) /\ wpc' = "idle" /\ UNCHANGED <<file, saved, pending>>
-Corrupt == /\ Tick /\ wpc = "idle" /\ \E g \in Mutations(file) \cup {Garbage, Absent} : file' = g
+Corrupt == /\ Tick /\ wpc = "idle" /\ \E g \in Mutations(file) \cup {Garbage(file.n), Absent} : file' = g
            /\ UNCHANGED <<mem, saved, pending, wpc>>
 Next == \/ \E k \in Keys, v \in Versions : Announce(k, v)
         \/ DumpMarshal \/ DumpTruncate \/ DumpPartial \/ DumpComplete \/ CrashRestart \/ Corrupt
@@ -85,5 +94,7 @@ RoundTrip == \A c \in SUBSET (Keys \X Versions) :
 (* after a restart the cache holds only templates of the saved cache, and all or nothing after a crash mid-write *)
 CrashSafe == [][CrashRestart => /\ mem'.c \subseteq saved
                                 /\ (file.t # "doc" => mem'.c = {})]_vars
-LoadTotal == \A g \in Mutations(file) \cup {file, Garbage, Absent} : Load(g).st \in {"ok", "broken"}
+(* a completed Dump loads back as exactly what it saved, whatever the file held before *)
+DumpRoundTrip == [][DumpComplete => Load(file') = [st |-> "ok", c |-> pending]]_vars
+LoadTotal == \A g \in Mutations(file) \cup {file, Garbage(file.n), Absent} : Load(g).st \in {"ok", "broken"}
 =============================================================================
